@@ -425,7 +425,9 @@ def run_C15(tier, seed, res, drv, replay=None):
             n = rng.randint(1, 4)
             edges = [(x, y) for x in range(n) for y in range(n) if x != y and rng.random() < (0.5 if y < x else 0.08)]
             spec = place_in_tree(rng, n, edges)
-        c15_tree_case(spec, res, batch, "tree")
+        if i % 3 == 0:
+            spec = with_history(spec, rng)      # listed / exported / run before, then edited: same answers expected
+        c15_tree_case(spec, res, batch, "tree" if i % 3 else "tree-history")
     for i in range(300 if tier == "quick" else 5000):
         c15_mutation_case(rng, res, batch, "mut")
     for i in range(300 if tier == "quick" else 5000):
@@ -489,6 +491,47 @@ def c16_case(spec, res, batch, tag):
         res.violations.append(("sanitize() raised", case))
 
 
+def c16_history_case(rng, res, batch, tag):
+    """sanitize, then edit (new dangling requirements anywhere in the tree), then sanitize again - several rounds on
+    the same objects: every call must be as exact as the first"""
+    spec = norm_spec(random_tree(rng, dangling=rng.choice([0, 0.2, 0.5]), p_sched=rng.choice([0.3, 0.5])))
+    objs = build(spec)
+    top = objs[0]
+    scheds = subtree_scheds(spec, 0)
+    everyone = list(range(1, spec["n"]))
+    hist = []
+    for rnd in range(rng.randint(2, 4)):
+        if rnd:
+            # new edges, most of them dangling (towards a job of another scheduler or of none)
+            for _ in range(rng.randint(1, 4)):
+                x, y = rng.choice(everyone), rng.choice(everyone)
+                if x != y and hasattr(objs[x], "required") and objs[y] not in objs[x].required:
+                    objs[x].required.add(objs[y])
+                    hist.append(["edge", x, y])
+        before = {o.jid: {r.jid for r in getattr(o, "required", ())} for o in objs}
+        enc = encode(objs)
+        via = rng.choice(["sanitize", "sanitize", "keep_only"]) if rnd else "sanitize"
+        if via == "keep_only":
+            # keep_only_between() ends with sanitize(): here it keeps everything
+            ret = try_call(top.keep_only_between)
+            ret = ("ok", None) if ret[0] == "ok" else ret
+        else:
+            ret = try_call(top.sanitize)
+        hist.append([via])
+        case = dict(kind="tree-history", spec=spec, history=list(hist), tag=tag)
+        res.evaluations += 1
+        res.nontrivial.add(("sanitize-history", str(hist), str(sorted(spec["mem"].items()))))
+        if ret[0] != "ok":
+            res.violations.append(("%s() raised %s in a history of edits" % (via, ret[1]), case))
+            return
+        if via == "sanitize":
+            batch.add("sanitize", case, "sanitize %s s=0" % enc, "%s R=%s" % (str(ret[1]).lower(), show_reqs(objs)))
+            sanitize_oracle(spec, objs, ret[1], before, case, res)
+        else:
+            removed = any({r.jid for r in getattr(o, "required", ())} != before[o.jid] for o in objs)
+            sanitize_oracle(spec, objs, not removed, before, case, res)
+
+
 def run_C16(tier, seed, res, drv, replay=None):
     rng = random.Random(seed)
     batch = Batch(res, drv)
@@ -519,6 +562,10 @@ def run_C16(tier, seed, res, drv, replay=None):
         spec = random_tree(rng, dangling=rng.choice([0, 0.1, 0.3, 0.6]), p_sched=rng.choice([0.2, 0.4]))
         spec["sv"] = [None, None, True, False][i % 4]
         c16_case(spec, res, batch, "rand")
+        if len(batch.items) > 20000:
+            batch.flush()
+    for i in range(400 if tier == "quick" else 8000):
+        c16_history_case(rng, res, batch, "history")
         if len(batch.items) > 20000:
             batch.flush()
     batch.flush()
@@ -732,7 +779,7 @@ def c18_ops_case(spec, ops, res, batch, tag):
                 res.violations.append(("bypass_and_remove changed the must-run-before relation", case))
         elif op[0] == "keep_only":
             keep = op[1]
-            r = try_call(top.keep_only, [objs[i] for i in keep])
+            r = try_call(top.keep_only, [objs[i] for i in keep] if len(hist) % 2 else iter([objs[i] for i in keep]))
             obs = state_of(objs) if r[0] == "ok" else "err " + r[1]
             batch.add("keeponly", case, "keeponly %s s=0 remains=%s" % (enc, enc_nats(keep)), obs)
             if r[0] != "ok":
@@ -747,7 +794,12 @@ def c18_ops_case(spec, ops, res, batch, tag):
                     break
         elif op[0] == "between":
             _, starts, ends, ks, ke = op
-            r = try_call(top.keep_only_between, starts=[objs[i] for i in starts], ends=[objs[i] for i in ends],
+            # the arguments are documented as iterables: lists, sets, tuples, one-shot iterators and generators
+            def as_iterable(ids, how):
+                l = [objs[i] for i in ids]
+                return [l, iter(l), (x for x in l), tuple(l), set(l)][how % 5]
+            how = len(hist) + len(starts) + 2 * len(ends) + (1 if ks else 0)
+            r = try_call(top.keep_only_between, starts=as_iterable(starts, how), ends=as_iterable(ends, how // 5 + how),
                          keep_starts=ks, keep_ends=ke)
             obs = state_of(objs) if r[0] == "ok" else "err " + r[1]
             batch.add("keepbetween", case, "between %s s=0 starts=%s ends=%s ks=%d ke=%d" % (enc, enc_nats(starts), enc_nats(ends), ks, ke), obs)
@@ -1516,7 +1568,9 @@ def run_C20(tier, seed, res, drv, replay=None):
     for i in range(1500 if tier == "quick" else 30000):
         spec = random_tree(rng, labels=lab, p_sched=rng.choice([0.2, 0.35, 0.5]), allow_empty=(i % 3 != 0))
         spec["top_pure"] = rng.random() < 0.3
-        c20_case(spec, res, batch, "rand", dot_texts)
+        if i % 3 == 1:
+            spec = with_history(spec, rng)      # listed / exported / run before, then edited: same text expected
+        c20_case(spec, res, batch, "rand" if i % 3 != 1 else "rand-history", dot_texts)
         if len(batch.items) > 3000:
             batch.flush()
     # quoting alone
